@@ -298,6 +298,10 @@ func (cl *c18Cluster) op(name string) string {
 		k := idx()
 		n, err := c.WriteAt(c18Block(k+1), int64(k)*eb.Block)
 		return fmt.Sprintf("%s:n=%d,%s", name, n, e(err))
+	case strings.HasPrefix(name, "Restart"):
+		// the replica process restarts (its data stays) and is ready for a fresh add
+		cl.nodes[idx()].Restart()
+		return name + ":done"
 	case strings.HasPrefix(name, "WF"):
 		// a write of block 1 whose data call fails on node <i> (the failure belongs to this write only: it is keyed by
 		// the payload)
@@ -377,6 +381,41 @@ func (cl *c18Cluster) state() string {
 
 var c18Invariants []string
 
+// c18Agreement: every replica the controller lists as RW holds the same data, chain and revision counter as the
+// others (evaluated at quiescence of a concurrent run; used where a replica is re-added at the same address, so that
+// a delayed stale monitor wake-up - which may detach the new attachment, an availability matter - keeps the run from
+// being comparable with the sequential orders).
+var c18Agreement []string
+
+func (cl *c18Cluster) agreement() []string {
+	v := cl.c.VerifView()
+	var out []string
+	first := -1
+	for _, r := range v.Replicas {
+		if r.Mode != types.RW {
+			continue
+		}
+		var n int
+		fmt.Sscanf(r.Address, "tcp://10.0.0.%d:9502", &n)
+		n--
+		if first < 0 {
+			first = n
+			continue
+		}
+		a, b := cl.nodes[first].View(), cl.nodes[n].View()
+		if a.Data != b.Data {
+			out = append(out, fmt.Sprintf("RW replicas on nodes %d and %d hold different data", first+1, n+1))
+		}
+		if strings.Join(a.Chain, ",") != strings.Join(b.Chain, ",") {
+			out = append(out, fmt.Sprintf("RW replicas on nodes %d and %d have different chains %v / %v", first+1, n+1, a.Chain, b.Chain))
+		}
+		if a.Rev != b.Rev {
+			out = append(out, fmt.Sprintf("RW replicas on nodes %d and %d report revision counters %d / %d", first+1, n+1, a.Rev, b.Rev))
+		}
+	}
+	return out
+}
+
 // invariants are the clauses of C18 that hold at every quiescent point: no address twice, not more data replicas than
 // the replication factor, at most one replica rebuilding (WO), reported RW count = number of RW entries, the replica
 // list and the backends that get I/O agree.
@@ -431,8 +470,21 @@ func c18Run(cfg *C18Cfg, ch vs.Chooser, trace bool, order []string) (string, *vs
 		vs.Quiesce(0)
 		vs.NoChoice(order != nil)
 		results := make([]string, len(cfg.Ops))
+		// an op is one call or a '+'-separated sequence of calls run by one thread (e.g. "WF2+Restart2+Add2")
+		released := make([]int, len(cfg.Ops))
 		start := func(k int) {
-			vs.Go(fmt.Sprintf("op%d:%s", k, cfg.Ops[k]), func() { results[k] = cl.op(cfg.Ops[k]) })
+			calls := strings.Split(cfg.Ops[k], "+")
+			vs.Go(fmt.Sprintf("op%d:%s", k, cfg.Ops[k]), func() {
+				var rs []string
+				for j, c := range calls {
+					if order != nil && j > 0 {
+						j := j
+						vs.Block("next call of the sequence (reference run)", func() bool { return released[k] > j })
+					}
+					rs = append(rs, cl.op(c))
+				}
+				results[k] = strings.Join(rs, ",")
+			})
 		}
 		if order == nil {
 			for k := range cfg.Ops {
@@ -440,17 +492,22 @@ func c18Run(cfg *C18Cfg, ch vs.Chooser, trace bool, order []string) (string, *vs
 			}
 			vs.Quiesce(0)
 		} else {
+			// event "k.j" = call j of op k; "k.j+" = the second half of that call when it is an AddReplica
 			for _, ev := range order {
-				var k int
-				fmt.Sscanf(ev, "%d", &k)
+				var k, j int
+				fmt.Sscanf(ev, "%d.%d", &k, &j)
+				calls := strings.Split(cfg.Ops[k], "+")
 				switch {
 				case strings.HasSuffix(ev, "+"):
 					cl.gateRel = true
-				case strings.HasPrefix(cfg.Ops[k], "Add"):
-					cl.gateOn, cl.gated, cl.gateRel = true, false, false
-					start(k)
 				default:
-					start(k)
+					if strings.HasPrefix(calls[j], "Add") {
+						cl.gateOn, cl.gated, cl.gateRel = true, false, false
+					}
+					released[k] = j + 1
+					if j == 0 {
+						start(k)
+					}
 				}
 				vs.Quiesce(0)
 			}
@@ -469,6 +526,7 @@ func c18Run(cfg *C18Cfg, ch vs.Chooser, trace bool, order []string) (string, *vs
 		outcome = strings.Join(results, " ; ") + " || " + cl.state()
 		if order == nil {
 			c18Invariants = cl.invariants()
+			c18Agreement = cl.agreement()
 		}
 		if len(blocked) > 0 {
 			outcome += " || BLOCKED " + strings.Join(blocked, ",")
@@ -481,11 +539,14 @@ func c18Run(cfg *C18Cfg, ch vs.Chooser, trace bool, order []string) (string, *vs
 func c18Orders(ops []string) [][]string {
 	var evs [][]string
 	for k, o := range ops {
-		if strings.HasPrefix(o, "Add") {
-			evs = append(evs, []string{fmt.Sprint(k), fmt.Sprint(k) + "+"})
-		} else {
-			evs = append(evs, []string{fmt.Sprint(k)})
+		var l []string
+		for j, c := range strings.Split(o, "+") {
+			l = append(l, fmt.Sprintf("%d.%d", k, j))
+			if strings.HasPrefix(c, "Add") {
+				l = append(l, fmt.Sprintf("%d.%d+", k, j))
+			}
 		}
+		evs = append(evs, l)
 	}
 	var out [][]string
 	pos := make([]int, len(evs))
@@ -553,6 +614,12 @@ func runC18(cfg *C18Cfg, ch vs.Chooser, trace bool) (*Outcome, *vs.Result) {
 		if iv != "" {
 			out.Violations = append(out.Violations, Viol{Oracle: "membership-invariant", Sig: "membership-invariant:" + cfg.Init + ":" + strings.Join(cfg.Ops, "||"), Detail: iv + "\n final: " + o})
 		}
+	}
+	if cfg.Name == "readd" {
+		for _, a := range c18Agreement {
+			out.Violations = append(out.Violations, Viol{Oracle: "rw-replicas-disagree", Sig: "rw-replicas-disagree:" + cfg.Init + ":" + strings.Join(cfg.Ops, "||"), Detail: a + "\n final: " + o})
+		}
+		return out, res
 	}
 	if _, ok := allowed[o]; !ok {
 		var al []string
@@ -681,3 +748,28 @@ func c10PromConfigs(tier string) []C18Cfg {
 }
 
 func checkC10prom() int { return checkSimple("C10", "C10prom", "C10-prom.part") }
+
+// c05Configs: the failure of a replica noticed through different paths while other calls run (part C05conc of C05): the
+// failed replica ends up detached, survivors hold every acknowledged write, and a detached replica comes back only
+// through a fresh add and a verification of THAT attachment - every interleaving ends as some sequential order does.
+func c05ConcConfigs(tier string) []C18Cfg {
+	var out []C18Cfg
+	add := func(init string, ops ...string) { out = append(out, C18Cfg{Name: "failure", Init: init, Ops: ops}) }
+	out = append(out, C18Cfg{Name: "readd", Init: "rw2wo", Ops: []string{"Ver2", "WF2+Restart2+Add2"}})
+	out = append(out, C18Cfg{Name: "readd", Init: "rw3", Ops: []string{"WF1+Restart1+Add1", "W0"}})
+	out = append(out, C18Cfg{Name: "readd", Init: "rw3", Ops: []string{"WF1+Restart1+Add1", "Mon1"}})
+	out = append(out, C18Cfg{Name: "readd", Init: "rw2wo", Ops: []string{"Ver2", "Mon2+Restart2+Add2"}})
+	for _, p := range [][]string{{"Ver2", "WF2"}, {"Ver2", "Mon2"}, {"Ver2", "Rm2"}, {"Ver2", "Err2"}, {"Ver2", "WF0"}, {"Ver2", "Mon0"}} {
+		add("rw2wo", p...)
+	}
+	for _, p := range [][]string{{"WF1", "Mon1"}, {"WF1", "Rm1"}, {"WF1", "Err1"}, {"Mon1", "Err1"}, {"WF1", "R"}, {"Mon1", "R"}} {
+		add("rw3", p...)
+	}
+	if tier == "thorough" {
+		out = append(out, C18Cfg{Name: "readd", Init: "rw2wo", Ops: []string{"Ver2", "WF2+Restart2+Add2", "W0"}})
+		add("rw3", "WF1", "Mon1", "R")
+	}
+	return out
+}
+
+func checkC05conc() int { return checkSimple("C05", "C05conc", "C05-conc.part") }
